@@ -1,5 +1,161 @@
-/- C06 — property theorems only. -/
-import OdcGeo.Model.C06
+/-
+C06 — Multi-part assembly preserves the byte stream under any schedule.
+
+Property theorems only (helper lemmas: `Lemmas/C06.lean`).  The model (`Model/C06.lean`) is
+`MPUChunk` + the dask operators of `odc/geo/cog/_mpu.py` as repaired by the `fix:` commits
+F7, F8, F9.  A dask `fold`/`collate` graph over the partitions is a binary merge tree over
+adjacent partitions; `eval`/`run` are *functions* of the tree, i.e. every node is a pure
+function of its children, which is why the result does not depend on the order in which
+dask executes sibling tasks (the harness checks that on the real graphs).
+-/
+import OdcGeo.Lemmas.C06
+
+set_option linter.unusedVariables false
+set_option linter.unusedSimpArgs false
+
 namespace OdcGeo.C06
+variable {α : Type}
+
+/-- `append` refines "append to the byte stream" and keeps the invariant. -/
+theorem append_refines {W : Writer} {c : Chunk α} {lo hi : Nat} {B : List α} {O : List (Nat × Int)}
+    (h : Inv W c lo hi B O false) (d : List α) (cid : Int) :
+    Inv W (c.append d cid) lo hi (B ++ d) (O ++ [(d.length, cid)]) false :=
+  append_inv h d cid
+
+/-- `maybe_write` never fails under the invariant, leaves the byte stream unchanged, keeps the
+invariant (in particular: every part it writes has at least `min_write_sz` bytes and a
+non-final section keeps one write credit and `min_write_sz` bytes), whatever `spill_sz` is. -/
+theorem maybeWrite_refines {W : Writer} {c : Chunk α} {lo hi : Nat} {B : List α} {O : List (Nat × Int)}
+    {fin : Bool} (spill : Nat) (h : Inv W c lo hi B O fin) :
+    ∃ c' ws, maybeWrite W spill c = .ok (c', ws) ∧ Inv W c' lo hi B O fin ∧ c'.parts = c.parts ++ ws :=
+  maybeWrite_inv spill h
+
+/-- `merge` of two adjacent sections never fails under the invariant and refines concatenation of
+the byte streams and of the observed lists (both the "concatenate" branch and the
+"flush left / move to left_data" branch). -/
+theorem merge_refines {W : Writer} {l r : Chunk α} {lo mid hi : Nat} {Bl Br : List α}
+    {Ol Or : List (Nat × Int)} {fin : Bool}
+    (hl : Inv W l lo mid Bl Ol false) (hr : Inv W r mid hi Br Or fin)
+    (hminP : W.minPart < lo) (hmax : mid ≤ W.maxPart + 1) (hobs : (Ol ++ Or).length ≠ 0) :
+    ∃ m ws, merge (some W) l r = .ok (m, ws) ∧ Inv W m lo hi (Bl ++ Br) (Ol ++ Or) fin ∧
+      m.parts = l.parts ++ ws ++ r.parts :=
+  merge_inv hl hr hminP hmax hobs
+
+/-- Every merge tree (any bracketing of adjacent merges) over partitions with ≥ 1 chunk each
+evaluates without failure to a chunk satisfying the invariant for the whole sub-stream, and the
+writer calls made so far are exactly the parts the chunk remembers. -/
+theorem tree_refines (W : Writer) (spill wpc : Nat) (markFinal : Bool) (total : Nat)
+    (hcap : (⟨some W, spill, wpc, markFinal⟩ : Cfg).base total ≤ W.maxPart + 1) (t : Tree α)
+    (idx : Nat) (hle : idx + t.leaves ≤ total) (hne : t.NonEmpty) :
+    ∃ c ws, eval ⟨some W, spill, wpc, markFinal⟩ total t idx = .ok (c, ws) ∧
+      Inv W c ((⟨some W, spill, wpc, markFinal⟩ : Cfg).base idx)
+        ((⟨some W, spill, wpc, markFinal⟩ : Cfg).base (idx + t.leaves)) t.bytes t.obs
+        (markFinal && decide (idx + t.leaves = total)) ∧ List.Perm ws c.parts :=
+  eval_inv W spill wpc markFinal total hcap t idx hle hne
+
+/-- **C06, writer present.**  For every writer limits `W`, spill size, writes-per-chunk, every
+merge tree `t` over partitions holding ≥ 1 chunk each (chunk sizes arbitrary, 0 included), every
+header / footer callback (absent, returning nothing, returning bytes), provided the writer has
+enough part numbers (`min_part + 1 + #partitions·wpc ≤ max_part + 1`):
+
+* the run does not fail and both callbacks were shown the complete ordered `(size, id)` list;
+* the list `fp` handed to `finalise` concatenates to header ++ chunks ++ footer;
+* its part numbers strictly increase (hence are unique) and lie in `[min_part, max_part]`;
+* every part except the last has at least `min_write_sz` bytes;
+* the writer calls made anywhere in the graph (`wsAll`) are exactly `fp` (as a multiset), so the
+  parts concatenated in increasing part number are header ++ chunks ++ footer. -/
+theorem main (W : Writer) (spill wpc : Nat) (t : Tree α)
+    (mkHdr mkFtr : Option (List (Nat × Int) → List α))
+    (hne : t.NonEmpty) (hcap : W.minPart + 1 + t.leaves * wpc ≤ W.maxPart + 1) :
+    ∃ wsF fp wsAll,
+      run ⟨some W, spill, wpc, mkFtr.isNone⟩ t mkHdr mkFtr = .ok (.written wsF fp, wsAll, t.obs) ∧
+      partsBytes fp = optBytes (mkHdr.map (fun f => f t.obs)) ++ t.bytes ++
+                      optBytes (mkFtr.map (fun f => f t.obs)) ∧
+      fp.Pairwise (fun a b => a.id < b.id) ∧
+      (∀ p ∈ fp, W.minPart ≤ p.id ∧ p.id ≤ W.maxPart) ∧
+      (∀ p ∈ fp.dropLast, W.minWrite ≤ p.data.length) ∧
+      List.Perm wsAll fp := by
+  have hcap' : (⟨some W, spill, wpc, mkFtr.isNone⟩ : Cfg).base t.leaves ≤ W.maxPart + 1 := by
+    simp only [Cfg.base, Cfg.minPart]; omega
+  obtain ⟨root, ws, e, hI, hperm⟩ :=
+    eval_inv W spill wpc mkFtr.isNone t.leaves hcap' t 0 (by omega) hne
+  have hfin : (mkFtr.isNone && decide (0 + t.leaves = t.leaves)) = mkFtr.isNone := by simp
+  rw [hfin] at hI
+  have hobs : root.observed = t.obs := hI.obs
+  have hff : (mkFtr.map (fun f => f t.obs)) ≠ none → mkFtr.isNone = false := by
+    cases mkFtr <;> simp
+  obtain ⟨O', hI1⟩ := addFooter_inv hI (mkFtr.map (fun f => f t.obs)) hff
+  have hhi : (⟨some W, spill, wpc, mkFtr.isNone⟩ : Cfg).base (0 + t.leaves) ≤ W.maxPart + 1 := by
+    simpa using hcap'
+  obtain ⟨root2, e2, hbytes, hparts, hr1, hr2, hr3, hr4, hr5⟩ :=
+    addHeader_spec hI1 hhi (mkHdr.map (fun f => f t.obs))
+  have hlo : W.minPart < (⟨some W, spill, wpc, mkFtr.isNone⟩ : Cfg).base 0 := by
+    simp only [Cfg.base, Cfg.minPart]; omega
+  have hsz : ∀ p ∈ root2.parts, W.minWrite ≤ p.data.length := by
+    rw [hparts]; exact hI1.sizes
+  obtain ⟨wsF, fp, e3, hF⟩ := flush_spec hr1 hr2 hr3 hr4 hr5 hlo hsz (by omega)
+  refine ⟨wsF, fp, ws ++ ([] ++ wsF), ?_, ?_, hF.incr, hF.range, hF.sizes, ?_⟩
+  · simp only [run, e, hobs, finalizer_eq, e2, e3]
+  · rw [hF.bytes, hbytes, List.append_assoc]
+  · have h1 : root2.parts = root.parts := by rw [hparts, addFooter_parts]
+    simp only [List.nil_append]
+    refine List.Perm.trans ?_ hF.perm
+    rw [h1]
+    exact List.Perm.append_right _ hperm
+
+/-- **C06, no writer** (`write=None`): nothing is written; the root chunk returned by the
+finaliser holds header ++ chunks ++ footer in its data section and the complete observed list was
+shown to the callbacks. -/
+theorem main_no_writer (spill wpc : Nat) (t : Tree α)
+    (mkHdr mkFtr : Option (List (Nat × Int) → List α)) (hne : t.NonEmpty) :
+    ∃ c, run ⟨none, spill, wpc, mkFtr.isNone⟩ t mkHdr mkFtr = .ok (.chunk c, [], t.obs) ∧
+      c.parts = [] ∧ c.left = [] ∧
+      c.data = optBytes (mkHdr.map (fun f => f t.obs)) ++ t.bytes ++
+               optBytes (mkFtr.map (fun f => f t.obs)) := by
+  obtain ⟨root, e, h1, h2, h3, h4⟩ := eval_none (α := α) spill wpc mkFtr.isNone t.leaves t 0 hne
+  -- footer stage
+  have hF : ∃ root1 : Chunk α, addFooter root (mkFtr.map (fun f => f t.obs)) = root1 ∧ root1.parts = [] ∧
+      root1.left = [] ∧ root1.data = t.bytes ++ optBytes (mkFtr.map (fun f => f t.obs)) := by
+    refine ⟨_, rfl, by rw [addFooter_parts]; exact h1, ?_, ?_⟩
+    · cases mkFtr with
+      | none => simpa [addFooter] using h2
+      | some f => by_cases hl : (f t.obs).length = 0 <;> simp [addFooter, hl, Chunk.append, h2]
+    · cases mkFtr with
+      | none => simpa [addFooter, optBytes] using h3
+      | some f =>
+        by_cases hl : (f t.obs).length = 0
+        · have : f t.obs = [] := List.length_eq_zero_iff.mp hl
+          simp [addFooter, hl, optBytes, this, h3]
+        · simp [addFooter, hl, Chunk.append, optBytes, h3]
+  obtain ⟨root1, e1, p1, l1, d1⟩ := hF
+  have hst : root1.started = false := (started_eq_false_iff root1).2 p1
+  cases hh : mkHdr with
+  | none =>
+    refine ⟨root1, ?_, p1, l1, by simp [optBytes, d1]⟩
+    simp only [run, e, h4, finalizer_eq, e1, addHeader, Option.map_none, List.append_nil]
+  | some f =>
+    by_cases hl : (f t.obs).length = 0
+    · have hnil : f t.obs = [] := List.length_eq_zero_iff.mp hl
+      refine ⟨root1, ?_, p1, l1, by simp [optBytes, d1, hnil]⟩
+      simp only [run, e, h4, finalizer_eq, e1, addHeader, Option.map_some, hl, ne_eq, not_true_eq_false,
+        if_false, List.append_nil]
+    · have hlen : ¬ (([] : List (Nat × Int)) ++ [((f t.obs).length, (-1 : Int))] ++ root1.observed).length = 0 := by
+        simp
+      refine ⟨{ next := 1, credits := 1 + root1.credits, data := [] ++ f t.obs ++ root1.data, left := [],
+                parts := [], observed := [] ++ [((f t.obs).length, -1)] ++ root1.observed,
+                isFinal := root1.isFinal, lhsKeep := 0 }, ?_, rfl, rfl, ?_⟩
+      · simp only [run, e, h4, finalizer_eq, e1, addHeader, Option.map_some, hl, ne_eq, not_false_eq_true,
+          if_true, merge, Chunk.append, mkChunk, hlen, hst, l1, Bool.not_false, List.length_nil,
+          not_true_eq_false, if_false, List.append_nil]
+      · simp [optBytes, d1]
+
+/-! ### non-vacuity and a concrete run -/
+
+/-- The hypotheses of `main` are met by a concrete non-trivial configuration (the replay of
+finding F7), and the model evaluates it to the expected parts. -/
+example :
+    let t : Tree Nat := .node (.leaf [([1, 2, 3], 0)]) (.leaf [([4, 5], 1), ([6], 2)])
+    t.NonEmpty ∧ (1 + 1 + t.leaves * 1 ≤ 100 + 1) := by
+  simp [Tree.NonEmpty, Tree.leaves]
 
 end OdcGeo.C06
